@@ -10,8 +10,8 @@ TECH = "Coq theorem over a Gallina model + model/implementation correspondence (
 P = {
  "C01": ("proof", "Theorem C01_every_written_frame_is_well_formed (kernel-checked, no bound): for all 12 operations of both APIs (thermostat control with its state query, status frame, IR frame and separate swing frame included), every configuration, clock reading, accepted argument and reply script whose login reply has 12 bytes, every byte string the exchange model writes satisfies the Spec's frame predicate (magic, LE16 of its own length, terminator, double-CRC signature); proved with a Hoare logic over the exchange monad and one reflection fact per regenerated packet template. Each run compares the frames the real client writes (in-process and over loopback TCP) with the model and evaluates the extracted frame predicate on every one of them.", "5 C01 / 12.2",
          'the API wiring (which template, argument order, where set_message_length is applied) is modelled by hand and tied by correspondence'),
- "C02": ("proof", "Theorems C02_<operation> for control_device, set_auto_shutdown, set_device_name, get_schedules, delete_schedule, stop and set_position: the exact frame list of the exchange model is [Spec login frame; Spec command frame], where the Spec frame renders an independently written byte layout with the declared meaning of the arguments (60 x minutes, whole minutes in 1h..23h59m, UTF-8 padded to 32 bytes, slot, position), and rejected arguments leave the login frame alone; generic theorem: whatever a call site writes is the layout's frame; all 15 templates equal their layouts. Each run compares the real command frame byte by byte with the extracted Spec on boundary and random arguments.", "5 C02 / 12.2",
-         'partial for create_schedule and the thermostat frames (template = layout + C11/C12 theorems + per-run Spec oracle)'),
+ "C02": ("proof", "Theorems C02_<operation> for control_device, set_auto_shutdown, set_device_name, get_schedules, delete_schedule, create_schedule, stop and set_position: the exact frame list of the exchange model is [Spec login frame; Spec command frame], where the Spec frame renders an independently written byte layout with the declared meaning of the arguments (60 x minutes, whole minutes in 1h..23h59m, UTF-8 padded to 32 bytes, slot, position), and rejected arguments leave the login frame alone; generic theorem: whatever a call site writes is the layout's frame; all 15 templates equal their layouts. Each run compares the real command frame byte by byte with the extracted Spec on boundary and random arguments.", "5 C02 / 12.2",
+         'create_schedule is stated relative to today\'s local midnight (the zone part is C11\'s theorem); the thermostat frames are C16\'s theorems'),
  "C03": ("proof", "Theorems: the exchange model of an operation is a function of its own configuration, clock reading, arguments and replies; the Spec login frame carries a zero session, the timestamp and the key (type 1) / device id (type 2); every Spec command frame carries at bytes 8-11 / 24-27 / 40-42 the session of this login's reply, this operation's timestamp and the device id; with C02's exact frame lists this fixes number, order and binding of frames. Each run drives single operations, sequences on one object, two interleaved objects (incl. the four-frame thermostat flow) and judges every frame with the extracted shape checker.", "5 C03 / 12.2",
          'partial: that the Python classes keep no hidden state and how asyncio interleaves coroutines is tested by correspondence, not modelled'),
  "C04": ("proof", "Theorems for every hex string: sign(p) = p ++ hex(double CRC) with the bit-serial CRC-16/CCITT as Spec, table-driven "
